@@ -264,6 +264,7 @@ func init() {
 					"ReverseComplementString": func(s []byte) { sequtil.ReverseComplementString(string(s)) }})
 			}},
 			{Name: "motifs", TShards: 4, Run: c12Motifs},
+			{Name: "gigantic", Run: c12Gigantic},
 			{Name: "hugek", QShards: 2, TShards: 8, Run: c12HugeK},
 			{Name: "readers", Race: true, QShards: 2, TShards: 4, Run: c12Readers},
 			{Name: "parallel", Race: true, Run: sequtilParallel("revcomp")},
@@ -589,6 +590,60 @@ func c12Motifs(c *Ctx) {
 			k.Count("motif_cases", 1)
 			k.Evals(2)
 			k.Nontrivial(seq, []byte(fmt.Sprint(kk)))
+		})
+	}
+}
+
+// c12Gigantic: ONE sequence with more than 2^25 k-mers (a chromosome arm), so
+// that an implementation which works through a long sequence in chunks runs
+// through at least one full chunk and a partial last one. All items are
+// counted; the items next to every multiple of 2^20 and the last 3000 are
+// compared with the reference, as is one item in 1024 elsewhere.
+func c12Gigantic(c *Ctx) {
+	sizes := []int{1<<25 + 1000}
+	if c.Thorough {
+		sizes = append(sizes, 1<<26+77)
+	}
+	for i, n := range sizes {
+		c.Case(int64(i), func(k *K) {
+			r := k.Rand()
+			s := make([]byte, n)
+			for j := 0; j < n; j += 16 {
+				v := r.Uint64()
+				for b := 0; b < 16 && j+b < n; b++ {
+					s[j+b] = "ACGTACGTacgtNnAC"[v>>(4*b)&15]
+				}
+			}
+			kk := pick(r, []int{5, 21, 32})
+			k.Input("bases", n)
+			k.Input("k", kk)
+			want := n - kk + 1
+			idx := 0
+			bad := ""
+			for kmer := range sequtil.CanonicalSubsequences(s, kk) {
+				if idx >= want {
+					idx++
+					break
+				}
+				if near := idx & (1<<20 - 1); near < 40 || near > 1<<20-40 || idx >= want-3000 || idx&1023 == 7 {
+					if w := refCanonical(s[idx : idx+kk]); !bytes.Equal(kmer, w) {
+						bad = fmt.Sprintf("item %d = %q, want %q", idx, kmer, w)
+						break
+					}
+				}
+				idx++
+			}
+			if bad != "" {
+				k.Failf("canonical-item", "CanonicalSubsequences on %d bases, k=%d: %s", n, kk, bad)
+				return
+			}
+			if idx != want {
+				k.Failf("canonical-count", "CanonicalSubsequences on %d bases, k=%d yields %d items, want %d", n, kk, idx, want)
+				return
+			}
+			k.Count("gigantic_sequences", 1)
+			k.Count("canonical_checked", int64(want/1024))
+			k.Nontrivial([]byte(fmt.Sprint("gigantic", n, kk)))
 		})
 	}
 }
